@@ -3,6 +3,7 @@ package procluster
 import (
 	"encoding/json"
 	"fmt"
+	"io/ioutil"
 	"math/rand"
 	"os"
 	"path/filepath"
@@ -65,7 +66,14 @@ type C06Case struct {
 	// further batchable writes (SET / HMSET on one hash / SETEX / DEL), one
 	// acknowledgement at a time, so that they sit in the WAL tail behind the newest
 	// snapshot; kind "tailkill" then kills the idle node from outside
-	TailRun  int    `json:"tail_run,omitempty"`
+	TailRun int `json:"tail_run,omitempty"`
+	// ExtraFP: further failpoint programs on the victim ("point=chain;..."), e.g. a sleep
+	// that keeps a concurrent activity inside its window while the crash point fires
+	ExtraFP string `json:"extra_fp,omitempty"`
+	// PadBytes: the hash values of client 1 are padded to this size (larger checkpoints)
+	PadBytes int `json:"pad_bytes,omitempty"`
+	// ThinkMs: pause of every client between two writes (stretches the script over several snapshots)
+	ThinkMs  int    `json:"think_ms,omitempty"`
 	Directed string `json:"directed,omitempty"`
 }
 
@@ -103,7 +111,7 @@ type scriptOp struct {
 	op   *Op
 }
 
-func c06Script(client, n, tailFrom int) []scriptOp {
+func c06Script(client, n, tailFrom, pad int) []scriptOp {
 	var out []scriptOp
 	for i := 0; i < n; i++ {
 		u := fmt.Sprintf("u%d_%d", client, i)
@@ -142,7 +150,11 @@ func c06Script(client, n, tailFrom int) []scriptOp {
 			}
 		case 1:
 			if i%2 == 0 {
-				out = append(out, scriptOp{Key: fmt.Sprintf("H%d", client), Type: "hash", Cmd: "hset", Args: []string{"f" + strconv.Itoa(i), u}, Elem: "f" + strconv.Itoa(i), Val: u})
+				v := u
+				if pad > len(v) {
+					v += "_" + strings.Repeat("x", pad-len(v)-1)
+				}
+				out = append(out, scriptOp{Key: fmt.Sprintf("H%d", client), Type: "hash", Cmd: "hset", Args: []string{"f" + strconv.Itoa(i), v}, Elem: "f" + strconv.Itoa(i), Val: v})
 			} else {
 				out = append(out, scriptOp{Key: fmt.Sprintf("S%d", client), Type: "set", Cmd: "sadd", Args: []string{u}, Elem: u})
 			}
@@ -572,6 +584,9 @@ func (x *c06Exec) client(ci int, wg *sync.WaitGroup) {
 		i++
 		if op.Status == "ok" {
 			atomic.AddInt64(&x.acked, 1)
+			if x.cs.ThinkMs > 0 {
+				time.Sleep(time.Duration(x.cs.ThinkMs) * time.Millisecond)
+			}
 			continue
 		}
 		if len(x.cl.Nodes) == 1 && op.IOErr {
@@ -627,8 +642,15 @@ func runC06Case(c *vc.Ctx, cs *C06Case, attempt int) (out c06Outcome) {
 	}()
 	name := fmt.Sprintf("c06-%d-%d", cs.Index, attempt)
 	dir := filepath.Join(c.Scratch, name)
+	var cl0 []*Cluster
 	defer func() {
 		// data dirs are large (preallocated WAL segments): remove right away
+		if keep := os.Getenv("VERIF_KEEP_LOGS"); keep != "" && len(cl0) > 0 {
+			for _, n := range cl0[0].Nodes {
+				b, _ := ioutil.ReadFile(n.LogPath)
+				ioutil.WriteFile(fmt.Sprintf("%s/c06-%d-n%d.log", keep, cs.Index, n.ID), b, 0644)
+			}
+		}
 		removeAll(dir)
 	}()
 	cl, err := NewCluster(name, dir, cs.Opts)
@@ -636,6 +658,7 @@ func runC06Case(c *vc.Ctx, cs *C06Case, attempt int) (out c06Outcome) {
 		out.inconclusive = "cluster setup: " + err.Error()
 		return
 	}
+	cl0 = append(cl0, cl)
 	defer cl.Close()
 	cl.SettleAbortOnDead = true
 	x := &c06Exec{c: c, cs: cs, cl: cl, clock: NewClock(), hist: &History{}}
@@ -645,13 +668,16 @@ func runC06Case(c *vc.Ctx, cs *C06Case, attempt int) (out c06Outcome) {
 		if ci == 4 {
 			n += cs.TailRun
 		}
-		x.scripts = append(x.scripts, c06Script(ci, n, cs.Writes))
+		x.scripts = append(x.scripts, c06Script(ci, n, cs.Writes, cs.PadBytes))
 	}
 	x.nClients = nClients
 	single := cs.Config == "single"
 	envFP := ""
 	if single && cs.Kind == "failpoint" {
 		envFP = cs.Point + "=" + cs.chain()
+	}
+	if single && cs.ExtraFP != "" {
+		envFP = strings.Trim(envFP+";"+cs.ExtraFP, ";")
 	}
 	for _, n := range cl.Nodes {
 		if err := n.Start(envFP, cs.Seed); err != nil {
@@ -692,6 +718,14 @@ func runC06Case(c *vc.Ctx, cs *C06Case, attempt int) (out c06Outcome) {
 			vi = (leader + 1 + int(cs.Seed%2)) % len(cl.Nodes)
 		}
 		x.victim = cl.Nodes[vi]
+		for _, ent := range strings.Split(cs.ExtraFP, ";") {
+			if i := strings.Index(ent, "="); i > 0 {
+				if err := x.victim.SetFailpoint(ent[:i], ent[i+1:]); err != nil {
+					out.inconclusive = "set failpoint: " + err.Error()
+					return
+				}
+			}
+		}
 		if cs.Kind == "failpoint" {
 			if err := x.victim.SetFailpoint(cs.Point, cs.chain()); err != nil {
 				out.inconclusive = "set failpoint: " + err.Error()
@@ -780,6 +814,14 @@ loop:
 		// the crash point was not reached (k-th hit never happened): kill from outside, still compare.
 		// The node is idle; give the raft loop time to finish persisting the last Ready first.
 		time.Sleep(300 * time.Millisecond)
+		for _, l := range x.victim.FiredLines() { // the crash point may fire in the idle phase (snapshot goroutine)
+			if strings.Contains(l, "point="+cs.Point+" ") {
+				fired, out.fired = true, true
+				if strings.Contains(l, " window=1 ") {
+					firedInWindow = true
+				}
+			}
+		}
 		if cs.Kind == "dry" && out.hits1 == nil {
 			out.hits1, _, _ = x.victim.Hits()
 		}
